@@ -25,7 +25,7 @@ type wop struct {
 }
 
 func (o wop) String() string {
-	x, y := "ab"[o.X:o.X+1], "ba"[o.X:o.X+1]
+	x, y := "abp"[o.X:o.X+1], "baa"[o.X:o.X+1]
 	switch o.Kind {
 	case "Add", "Remove", "Contains", "CheckedAdd":
 		return fmt.Sprintf("%s.%s(%d)", x, o.Kind, o.V)
@@ -56,14 +56,14 @@ func (c wspec) name() string {
 		}
 		ts = append(ts, strings.Join(os, ";"))
 	}
-	return fmt.Sprintf("conc/uint%d/a={1,2},b={2,3}/%s", c.Width, strings.Join(ts, " || "))
+	return fmt.Sprintf("conc/uint%d/a={1,2},b={2,3},p={1,2,3}/%s", c.Width, strings.Join(ts, " || "))
 }
 
 type duplexPair interface {
 	apply(o wop) string
 }
 
-type pairOf[T integer] struct{ d [2]cardinality.Duplex[T] }
+type pairOf[T integer] struct{ d [3]cardinality.Duplex[T] }
 
 func newPairOf[T integer]() *pairOf[T] {
 	p := &pairOf[T]{}
@@ -71,11 +71,20 @@ func newPairOf[T integer]() *pairOf[T] {
 	p.d[1] = newDuplex[T](wrapped)
 	p.d[0].Add(1, 2)
 	p.d[1].Add(2, 3)
+	p.d[2] = newDuplex[T](plain) // thread-confined plain bitmap; its binary operations take wrapper a as operand
+	p.d[2].Add(1, 2, 3)
 	return p
 }
 
+func other(x int) int {
+	if x == 2 {
+		return 0
+	}
+	return 1 - x
+}
+
 func (p *pairOf[T]) apply(o wop) string {
-	x, y := p.d[o.X], p.d[1-o.X]
+	x, y := p.d[o.X], p.d[other(o.X)]
 	switch o.Kind {
 	case "Add":
 		x.Add(T(o.V))
@@ -104,8 +113,8 @@ func (p *pairOf[T]) apply(o wop) string {
 }
 
 // specApply is the sequential specification on a pair of sets.
-func specApply(st *[2]map[uint64]bool, o wop) string {
-	x, y := st[o.X], st[1-o.X]
+func specApply(st *[3]map[uint64]bool, o wop) string {
+	x, y := st[o.X], st[other(o.X)]
 	switch o.Kind {
 	case "Add":
 		x[o.V] = true
@@ -156,8 +165,8 @@ func specApply(st *[2]map[uint64]bool, o wop) string {
 	return ""
 }
 
-func cloneState(st [2]map[uint64]bool) [2]map[uint64]bool {
-	var o [2]map[uint64]bool
+func cloneState(st [3]map[uint64]bool) [3]map[uint64]bool {
+	var o [3]map[uint64]bool
 	for i := range st {
 		o[i] = map[uint64]bool{}
 		for v := range st[i] {
@@ -173,7 +182,7 @@ func isBinary(k string) bool { return k == "Or" || k == "And" || k == "AndNot" |
 // its call interval. An in-place binary operation x.Op(y) takes effect in two instants inside its interval: it first reads
 // one consistent state of the operand y, later it updates x atomically with that state (no implementation that avoids
 // holding two wrapper locks at once can do better, and the property does not ask for cross-object atomicity).
-func wLinearizable(events []*wevent, final [2]string) bool {
+func wLinearizable(events []*wevent, final [3]string) bool {
 	type item struct {
 		e     *wevent
 		phase int // 0 = whole unary op, 1 = operand read, 2 = receiver update
@@ -191,8 +200,8 @@ func wLinearizable(events []*wevent, final [2]string) bool {
 	n := len(items)
 	placed := make([]bool, n)
 	snaps := make([]map[uint64]bool, n)
-	var rec func(done int, st [2]map[uint64]bool) bool
-	rec = func(done int, st [2]map[uint64]bool) bool {
+	var rec func(done int, st [3]map[uint64]bool) bool
+	rec = func(done int, st [3]map[uint64]bool) bool {
 		if done == n {
 			for i := range st {
 				if specApply(&st, wop{Kind: "Slice", X: i}) != final[i] {
@@ -223,16 +232,16 @@ func wLinearizable(events []*wevent, final [2]string) bool {
 				}
 			case 1:
 				snap := map[uint64]bool{}
-				for v := range ns[1-it.e.op.X] {
+				for v := range ns[other(it.e.op.X)] {
 					snap[v] = true
 				}
 				snaps[i] = snap
 			case 2:
 				// apply with the operand state captured by the read
-				saved := ns[1-it.e.op.X]
-				ns[1-it.e.op.X] = snaps[it.dep]
+				saved := ns[other(it.e.op.X)]
+				ns[other(it.e.op.X)] = snaps[it.dep]
 				specApply(&ns, it.e.op)
-				ns[1-it.e.op.X] = saved
+				ns[other(it.e.op.X)] = saved
 			}
 			placed[i] = true
 			if rec(done+1, ns) {
@@ -242,7 +251,7 @@ func wLinearizable(events []*wevent, final [2]string) bool {
 		}
 		return false
 	}
-	return rec(0, [2]map[uint64]bool{{1: true, 2: true}, {2: true, 3: true}})
+	return rec(0, [3]map[uint64]bool{{1: true, 2: true}, {2: true, 3: true}, {1: true, 2: true, 3: true}})
 }
 
 func (c wspec) newPair() duplexPair {
@@ -281,16 +290,16 @@ func (c wspec) scenario() *sched.Scenario {
 				if r.Outcome != sched.Completed {
 					return r.Outcome.String(), nil
 				}
-				final := [2]string{p.apply(wop{Kind: "Slice", X: 0}), p.apply(wop{Kind: "Slice", X: 1})}
+				final := [3]string{p.apply(wop{Kind: "Slice", X: 0}), p.apply(wop{Kind: "Slice", X: 1}), p.apply(wop{Kind: "Slice", X: 2})}
 				var sb strings.Builder
 				for _, e := range events {
 					fmt.Fprintf(&sb, "T%d:%v=%s@[%d,%d] ", e.thread, e.op, e.res, e.call, e.ret)
 				}
-				fmt.Fprintf(&sb, "final a=%s b=%s", final[0], final[1])
+				fmt.Fprintf(&sb, "final a=%s b=%s p=%s", final[0], final[1], final[2])
 				if !wLinearizable(events, final) {
 					return "bad", &core.Violation{Class: "not-linearizable", Summary: "history has no linearization against the set specification: " + sb.String()}
 				}
-				obs := final[0] + final[1]
+				obs := final[0] + final[1] + final[2]
 				for _, e := range events {
 					obs += e.res + ","
 				}
@@ -357,6 +366,20 @@ func wspecs(tier core.Tier) []wspec {
 					if mutates(p1[i], p1[j], p1[k]) {
 						out = append(out, wspec{w, [][]wop{p1[i], p1[j], p1[k]}})
 					}
+				}
+			}
+		}
+		// a thread-confined plain bitmap p whose binary operations read the shared wrapper a while other threads write a
+		var pOps [][]wop
+		for _, k := range []string{"Or", "And", "AndNot", "Xor"} {
+			pOps = append(pOps, []wop{{k, 2, 0}})
+		}
+		aWriters := [][]wop{{{"Add", 0, 3}}, {{"Remove", 0, 2}}, {{"Add", 0, 3}, {"Remove", 0, 2}}, {{"Remove", 0, 1}, {"Add", 0, 3}}, {{"Clear", 0, 0}}, {{"Xor", 0, 0}}}
+		for _, po := range pOps {
+			for i, w1 := range aWriters {
+				out = append(out, wspec{w, [][]wop{po, w1}})
+				for _, w2 := range aWriters[i:] {
+					out = append(out, wspec{w, [][]wop{po, w1, w2}})
 				}
 			}
 		}
